@@ -130,6 +130,13 @@ def run_case(case):
     geo = {"ice": [n0, k_, a_, [zmin, ztop]], "from": a.tolist(), "to": b.tolist(), "rho": rho, "tracer": case["tracer"], "dz": case["dz"],
            "sat0": bool(n0 - nfun(z0) < 32 * EPS * n0), "sat1": bool(n0 - nfun(z1) < 32 * EPS * n0)}
     rt = make_tracer(case, a, b, ice)
+    if case["tracer"] == "basic":
+        # observable of a mechanism of the numeric tracer, measured on the real ice model (see kf_basic_turning_depth_unresolved)
+        try:
+            geo["turn_depth_error"] = float(max(abs(float(ice.depth_with_index(ice.index(z))) - z) for z in (z0, z1)))
+            geo["z_turn_proximity"] = float(rt.z_turn_proximity)
+        except Exception:       # noqa: BLE001
+            pass
     try:
         sols = list(rt.solutions)
         ex = bool(rt.exists)
@@ -271,6 +278,23 @@ def kf_cancellation(case, viol):
     if viol["clause"] in ("time of flight == integral of n ds / c along the ray", "received direction == the ray's direction at the receiver"):
         return d["deviation"] <= d["tolerance"] + cb / L
     return False
+
+
+def kf_basic_turning_depth_unresolved(case, viol):
+    """Numeric tracer, deep endpoints: the real depth_with_index(index(z)) misses z by more than the distance
+    (z_turn_proximity) at which the numeric integrals stop short of the turning point, so the limits of the second leg are
+    inverted, the r-function is negative at the end of the root bracket and brentq raises."""
+    d = viol["detail"]
+    return (d.get("tracer") == "basic" and viol["clause"].startswith("tracer reports solutions or none") and "different signs" in d.get("error", "")
+            and d.get("turn_depth_error", 0.0) > d.get("z_turn_proximity", float("inf")))
+
+
+def kf_basic_leg_shorter_than_step(case, viol):
+    """Numeric tracer: z_integral uses int(|dz_leg| / dz) trapezoid intervals, which is zero for a leg spanning less than one
+    step in depth: path length and time of flight of such a solution are exactly 0."""
+    d = viol["detail"]
+    return (d.get("tracer") == "basic" and "from" in d and abs(d["from"][2] - d["to"][2]) < d.get("dz", 0.0) and d.get("L") == 0.0
+            and viol["clause"] == "path length is finite and of the size of the geometry")
 
 
 def kf_basic_max_angle_nan(case, viol):
